@@ -396,7 +396,7 @@ Definition show_case (b : body) (ats : list (nat * sval)) (nss : list (list anod
 
 # ------------------------------------------------------------------ link to the shared PEG core
 LINK_IMPORTS = """From TxV Require Import Core.Base Core.Show Model.MultBase Gen.SrcMult Model.Mult.
-From TxV Require Model.Build.
+From TxV Require Model.Build Model.MultBuild Proofs.MultEndProofs.
 From TxV Require Import Model.PegSyntax Model.Peg Model.MultPeg.
 Open Scope string_scope.
 Definition attr_id (s : list N) : nat := match s with [97%N] => 0 | [98%N] => 1 | [99%N] => 2 | _ => 99 end.
@@ -425,12 +425,17 @@ Definition show_node (n : anode) : string :=
    assignment nodes read off its result *)
 Definition show_link (g : grammar) (mm : list Build.ninfo) (c : config) (b : Mult.body) (nid : nat)
            (runs : list (list ((nat * nat) * nat) * list N)) : string :=
-  show_bool (den g mm attr_id true b nid) ++ "#" ++
+  (* the side conditions of C02_run_object_values on the real tables: den, asg_table_okb, top_okb, mult_agreesb *)
+  show_bool (den g mm attr_id true b nid && MultBuild.asg_table_okb g mm && MultEndProofs.top_okb g nid &&
+             match Build.info mm nid with
+             | Build.IRule Build.RCommon _ attrs => MultBuild.mult_agreesb attr_id b attrs
+             | _ => false
+             end) ++ "#" ++
   sjoin "#" (map (fun ti =>
     match run g c (orc_of (fst ti)) false 200 (snd ti) with
     | Parsed (RTree (NT _ (t :: _))) =>
       match t with
-      | NT n _ => if Nat.eqb n nid then "P" ++ sjoin ";" (map show_node (top_nodes g mm attr_id (conv_tree g (snd ti)) (RTree t))) else "noobj"
+      | NT n _ => if Nat.eqb n nid then (if Build.asg_placed mm false t then "P" else "Q") ++ sjoin ";" (map show_node (top_nodes g mm attr_id (conv_tree g (snd ti)) (RTree t))) else "noobj"
       | _ => "noobj"
       end
     | Parsed _ => "noobj"
